@@ -154,6 +154,19 @@ def _query_times(case, t, S):
         if ok2.any():
             tt = tn + ts
             out += [float(np.nanmin(tt)), float(np.nanmedian(tt)), float(np.nanmin(ts))]
+    # on-grid times around every crossing of every threshold (the column before and the column of the crossing)
+    Xs = np.asarray(S.X_sigma)
+    extra = []
+    for thr in case.get("thresholds", THRESHOLDS):
+        th = S.solidificationThreshold if thr is None else thr
+        for row in Xs:
+            pos = np.nonzero(row > th)[0]
+            if len(pos) and pos[0] > 0:
+                extra += [int(pos[0]) - 1, int(pos[0])]
+    extra = sorted(set(extra))
+    if len(extra) > 48:
+        extra = extra[:: max(1, len(extra) // 48)][:48]
+    out += [float(t[i]) for i in extra]
     out += [-1.0]
     # keep the query times inside the process except for one explicit probe beyond the end
     tend = float(t[-1])
@@ -511,7 +524,7 @@ def predicates(case, impl):
         if tsol[i] is not None:
             if tnuc[i] is None:
                 F("tsol_only_if_nucleated", "run", "", f"vial {i}: t_sol={tsol[i]} without t_nuc")
-            elif tsol[i] < 0:
+            elif tsol[i] < -1e-9 * max(1.0, abs(tnuc[i])):  # (t[k]+dt vs t[k+1]: rounding only)
                 F("tsol_nonneg", "run", "", f"vial {i}: t_sol={tsol[i]} < 0")
             if k1 is None:
                 F("tsol_def", "run", "no-column", f"vial {i}: t_sol={tsol[i]} but sigma never exceeds {solThr}")
@@ -562,6 +575,8 @@ def predicates(case, impl):
                         break
 
     # --- counters
+    first0 = [_first(row, 0.0) for row in Xs]
+    firstS = [_first(row, solThr) for row in Xs]
     for d in impl["perThr"]:
         thr = solThr if d["thr"] is None else d["thr"]
         cs = d["count_states"]
@@ -587,9 +602,15 @@ def predicates(case, impl):
             if q > tend or q < 0:
                 continue
             on_grid = any(x == q for x in t)
+            tolq = 1e-9 * max(1.0, abs(q))
+            # the recorded time is t[k]+dt, the grid time (k+1)*dt: for a dt that is not a binary fraction the two
+            # differ by rounding, and `t_nuc <= q` at q = t[k+1] is a float TIE (not evaluated, per CONTRIBUTING.md)
+            near = [x for x in tnuc if x is not None] + [t[k_] for k_ in first0 + firstS if k_ is not None]
+            if any(0 < abs(x - q) <= tolq for x in near):
+                continue
             if thr == 0:
                 # nucleated at q: ice has appeared at a grid time <= q
-                truth = sum(1 for row in Xs if (_first(row, 0.0) is not None and t[_first(row, 0.0)] <= q))
+                truth = sum(1 for k0_ in first0 if (k0_ is not None and t[k0_] <= q))
                 if c != truth:
                     F("counter_nuc_stats", "sigmaCounter", "stats-vs-trajectory",
                       f"t={q}: sigmaCounter(t,0)={c} but {truth} trajectories show ice by then")
@@ -599,7 +620,7 @@ def predicates(case, impl):
                       f"t={q}: stats path {c} vs states path {cs[impl['times'].index(q)]}")
                     break
             elif thr == solThr and thr > 0:
-                truth = sum(1 for row in Xs if (_first(row, thr) is not None and t[_first(row, thr)] <= q))
+                truth = sum(1 for k1_ in firstS if (k1_ is not None and t[k1_] <= q))
                 if c != truth:
                     F("counter_sol_stats", "sigmaCounter", "duration-vs-clock",
                       f"t={q}: sigmaCounter(t)={c} (counts t_solidification <= t, a duration) but {truth} "
@@ -669,6 +690,13 @@ def _real(rng, big=False):
     dt = rng.choice([1, 2, 5, 10, 0.5, 2.5] if K >= 100 else [5, 10])
     rate = rng.choice([0.05, 0.1, 0.2, 0.5, 1.0]) * (1 if K >= 200 else 0.2)
     start = rng.choice([20, 5, 0, 10.5])
+    if rng.random() < 0.25:
+        # a time step that is not a binary fraction (on-grid times are k*dt with rounding); fast process
+        dt = rng.choice([0.1, 0.3, 0.7, 1.1])
+        K = rng.choice([1000, 2000])
+        k["s0"] = K
+        rate = rng.choice([0.5, 1.0])
+        start = rng.choice([0, 5])
     stop = rng.choice([-50, -40, -25, -25, -5])
     holds = []
     for _ in range(rng.choice([0, 0, 1, 1, 2])):
@@ -678,7 +706,7 @@ def _real(rng, big=False):
     # time for the vials to follow the shelf ~ a few hundred seconds * 1000/K
     need = ramp + 300 * 1000 / K
     t_tot = need * rng.choice([0.25, 0.5, 0.65, 0.8, 0.9, 1.0, 1.2, 1.5, 2.5])
-    nmax = 3000 if big else 1200
+    nmax = 3000 if big else 1500
     t_tot = min(t_tot, nmax * dt)
     if rng.random() < 0.3:
         t_tot = dt * int(t_tot / dt)  # on the grid
@@ -687,11 +715,17 @@ def _real(rng, big=False):
     if st < 0.55 or n == 1:
         store = "all"
     elif st < 0.8:
-        store = sorted(rng.sample(range(n), rng.randint(1, max(1, n - 1))))
+        # integer sequences in ascending, REVERSED and arbitrary order (rows must still belong to their vial)
+        store = rng.sample(range(n), rng.randint(1, max(1, n - 1)))
+        order = rng.random()
+        if order < 0.3:
+            store = sorted(store)
+        elif order < 0.55:
+            store = sorted(store, reverse=True)
     else:
         store = rng.choice(["edge", "corner", "core", "uniform_3", "random_2", "all"]) if n >= 9 and shape[2] == 1 else "all"
     case = dict(kind="real", shape=shape, k=k, dt=dt, rate=rate, start=start, stop=stop, t_tot=t_tot,
-                holds=holds or None, cn=None, store=store, solThr=rng.choice([0.9, 0.9, 0.9, 0.5, 0.99, 0.3]),
+                holds=holds or None, cn=None, store=store, solThr=rng.choice([0.9, 0.9, 0.9, 0.5, 0.99, 0.3, 0.05, 0.12, 0.0]),
                 seed=rng.randint(0, 10 ** 6), seed_v=rng.randint(0, 10 ** 6),
                 initIce=rng.choice(["indirect", "direct"]),
                 group=rng.choice(["all", "all", "all", "edge", "corner", "core"]) if n >= 9 and shape[2] == 1 else "all",
